@@ -1,3 +1,4 @@
+import MdVerif.Proofs.VoxGeometry
 import MdVerif.Model.Neighbors
 import MdVerif.Properties.C05
 import MdVerif.Proofs.VoxLemmas
@@ -327,3 +328,53 @@ theorem c10_voxel_window (n : Nat) (size y1 y2 d : Rat) (hs : 0 < size) (hd : |y
   split <;> split <;> (try split) <;> (try split) <;> omega
 
 end MdVerif.Vox
+
+/-! ## the geometric x window of a voxel (rectangular branches of `Voxels::getNeighbors`), over the reals -/
+namespace MdVerif.VoxGeo
+
+/-- **the x window of a voxel is wide enough** (rectangular branch of `Voxels::getNeighbors`, no periodic image): an atom `p` inside the voxel
+`[ylo, yhi] × [zlo, zhi]` that is closer than the cutoff `d` to the centre atom `c` has its x coordinate strictly inside
+`(c_x − √(d² − dy² − dz²), c_x + √(d² − dy² − dz²))`, where `dy`, `dz` are the distances from `c` to the voxel's rows — and that radicand is
+positive, so the voxel is not skipped.  With `c10_xrange_exact` (the range scanned is exactly the atoms with minx ≤ x ≤ maxx) no neighbour is lost. -/
+theorem c10_window_sound (cx cy cz px py pz ylo yhi zlo zhi d : ℝ)
+    (hy1 : ylo ≤ py) (hy2 : py ≤ yhi) (hz1 : zlo ≤ pz) (hz2 : pz ≤ zhi)
+    (hd : (px - cx) ^ 2 + (py - cy) ^ 2 + (pz - cz) ^ 2 < d ^ 2) :
+    0 < d ^ 2 - gap cy ylo yhi ^ 2 - gap cz zlo zhi ^ 2 ∧
+    cx - Real.sqrt (d ^ 2 - gap cy ylo yhi ^ 2 - gap cz zlo zhi ^ 2) < px ∧
+    px < cx + Real.sqrt (d ^ 2 - gap cy ylo yhi ^ 2 - gap cz zlo zhi ^ 2) := by
+  have gy := gap_le cy ylo yhi py hy1 hy2
+  have gz := gap_le cz zlo zhi pz hz1 hz2
+  have gy2 : gap cy ylo yhi ^ 2 ≤ (py - cy) ^ 2 := by
+    rw [← sq_abs (py - cy)]; exact pow_le_pow_left₀ (gap_nonneg _ _ _) gy 2
+  have gz2 : gap cz zlo zhi ^ 2 ≤ (pz - cz) ^ 2 := by
+    rw [← sq_abs (pz - cz)]; exact pow_le_pow_left₀ (gap_nonneg _ _ _) gz 2
+  have hx : (px - cx) ^ 2 < d ^ 2 - gap cy ylo yhi ^ 2 - gap cz zlo zhi ^ 2 := by linarith
+  refine ⟨lt_of_le_of_lt (sq_nonneg _) hx, ?_, ?_⟩
+  · have := Real.neg_sqrt_lt_of_sq_lt hx; linarith
+  · have := Real.lt_sqrt_of_sq_lt hx; linarith
+
+
+/-- **periodic rectangular cell**: an atom in another voxel row (no image of the centre atom lies in that row) whose periodic image
+`p − (k_y·L_y, k_z·L_z)` in y and z is closer than the cutoff to `c`, with x shifted by `s` (the image offset along x), has its x coordinate
+inside the window computed from the wrapped row distances -/
+theorem c10_window_sound_periodic (cx cy cz px py pz ylo yhi zlo zhi d Ly Lz : ℝ) (ky kz : ℤ) (hLy : 0 < Ly) (hLz : 0 < Lz)
+    (hy1 : ylo ≤ py) (hy2 : py ≤ yhi) (hz1 : zlo ≤ pz) (hz2 : pz ≤ zhi)
+    (houty : ¬ (ylo ≤ cy + ky * Ly ∧ cy + ky * Ly ≤ yhi)) (houtz : ¬ (zlo ≤ cz + kz * Lz ∧ cz + kz * Lz ≤ zhi))
+    (hd : (px - cx) ^ 2 + (py - cy - ky * Ly) ^ 2 + (pz - cz - kz * Lz) ^ 2 < d ^ 2) :
+    0 < d ^ 2 - gapP Ly cy ylo yhi ^ 2 - gapP Lz cz zlo zhi ^ 2 ∧
+    cx - Real.sqrt (d ^ 2 - gapP Ly cy ylo yhi ^ 2 - gapP Lz cz zlo zhi ^ 2) < px ∧
+    px < cx + Real.sqrt (d ^ 2 - gapP Ly cy ylo yhi ^ 2 - gapP Lz cz zlo zhi ^ 2) := by
+  have gy := gapP_le Ly cy ylo yhi py hLy hy1 hy2 ky houty
+  have gz := gapP_le Lz cz zlo zhi pz hLz hz1 hz2 kz houtz
+  have ny : 0 ≤ gapP Ly cy ylo yhi := le_min (abs_nonneg _) (abs_nonneg _)
+  have nz : 0 ≤ gapP Lz cz zlo zhi := le_min (abs_nonneg _) (abs_nonneg _)
+  have gy2 : gapP Ly cy ylo yhi ^ 2 ≤ (py - cy - ky * Ly) ^ 2 := by
+    rw [← sq_abs (py - cy - ky * Ly)]; exact pow_le_pow_left₀ ny gy 2
+  have gz2 : gapP Lz cz zlo zhi ^ 2 ≤ (pz - cz - kz * Lz) ^ 2 := by
+    rw [← sq_abs (pz - cz - kz * Lz)]; exact pow_le_pow_left₀ nz gz 2
+  have hx : (px - cx) ^ 2 < d ^ 2 - gapP Ly cy ylo yhi ^ 2 - gapP Lz cz zlo zhi ^ 2 := by linarith
+  refine ⟨lt_of_le_of_lt (sq_nonneg _) hx, ?_, ?_⟩
+  · have := Real.neg_sqrt_lt_of_sq_lt hx; linarith
+  · have := Real.lt_sqrt_of_sq_lt hx; linarith
+
+end MdVerif.VoxGeo
